@@ -239,6 +239,28 @@ def check_struct(case):
                 viols.append(('phase-direct:vs-transform', '%s smoothing=%r: phase_from_complex_signal differs from the phase of frequency_transform' % (tag, sm)))
             elif not (np.all(w0 >= 0) and np.all(w0 < 2 * np.pi)):
                 viols.append(('phase-direct:range', '%s smoothing=%r: wrapped phase outside [0, 2pi)' % (tag, sm)))
+    # amplitude normalisation called directly: one pass divides by the combined envelope of the SELECTED interpolant, and a
+    # vector is treated like the single column it is
+    if m == 'nht' and ncol == 1 and sr == SRS[0]:
+        from emd.sift import interp_envelope
+        xv = X[:, 0].copy()
+        for im in ('pchip', 'splrep', 'mono_pchip'):
+            try:
+                col = np.asarray(amplitude_normalise(X.copy(), interp_method=im, max_iters=1))
+                vec = np.asarray(amplitude_normalise(xv.copy(), interp_method=im, max_iters=1))
+                env = interp_envelope(xv.copy(), mode='combined', interp_method=im)
+            except Exception as e:
+                viols.append(('norm-direct:raise:%s' % type(e).__name__, '%s interp_method=%s raised %r' % (tag, im, e)))
+                continue
+            trans += 3
+            if env is None:
+                continue
+            want = xv / np.asarray(env)
+            if vec.reshape(-1).shape != want.shape or not np.allclose(vec.reshape(-1), want, rtol=1e-10, atol=1e-12):
+                viols.append(('norm-direct:vector', '%s: amplitude_normalise(vector, interp_method=%s, max_iters=1) is not x / combined %s envelope (max diff %.3g)' % (
+                    tag, im, im, np.max(np.abs(vec.reshape(-1) - want)))))
+            if not np.allclose(col.reshape(-1), vec.reshape(-1), rtol=1e-12, atol=1e-14):
+                viols.append(('norm-direct:layout', '%s interp_method=%s: vector and column input are normalised differently' % (tag, im)))
     # amplitude normalisation (used by nht / quad)
     if m == 'nht':
         for clip in (False, True):
